@@ -22,6 +22,36 @@ type Outcome struct {
 	Model   map[string]string
 	Output  string
 	File    string
+	// CandidateModel: model of the query with quantified assumptions dropped (only when the full query is undecided)
+	CandidateModel map[string]string
+}
+
+// relaxedModel drops every asserted quantified formula and asks for a model.
+func relaxedModel(file string, timeoutS int) map[string]string {
+	b, err := os.ReadFile(file)
+	if err != nil {
+		return nil
+	}
+	var out []string
+	for _, l := range strings.Split(string(b), "\n") {
+		if strings.HasPrefix(l, "(assert ") && strings.Contains(l, "(forall ") && !strings.HasPrefix(l, "(assert (not ") {
+			continue
+		}
+		out = append(out, l)
+	}
+	rf := strings.TrimSuffix(file, ".smt2") + ".relaxed.smt2"
+	if os.WriteFile(rf, []byte(strings.Join(out, "\n")), 0o644) != nil {
+		return nil
+	}
+	t := timeoutS
+	if t > 10 {
+		t = 10
+	}
+	v, o := runSolver(context.Background(), solvers[0], rf, t)
+	if v != "sat" {
+		return nil
+	}
+	return parseModel(o)
 }
 
 type solverCmd struct {
@@ -185,6 +215,14 @@ func Solve(o *Obligation, dir string, idx int, timeoutS int) *Outcome {
 	fin := finish("unknown", "none", strings.Join(all, "\n"))
 	if nerr == len(solvers) {
 		fin.Status = "solver-error"
+		return fin
+	}
+	// undecided with quantified assumptions in the context: look for a *candidate* counterexample with those
+	// assumptions dropped (a weaker context: a model found here is only a candidate and must be replayed).
+	if !o.ExpectSat {
+		if m := relaxedModel(file, timeoutS); m != nil {
+			fin.CandidateModel = m
+		}
 	}
 	return fin
 }
